@@ -183,12 +183,12 @@ func (ex *Exec) havocReachable(st *State, v Val, depth int) {
 }
 
 func (ex *Exec) havocMap(st *State, m Val) {
-	dom, ln, vals, ks, vl := mapKeys(m.T)
-	st.set(dom, Store(st.get(dom, ArrS(IntS, ArrS(ks, BoolS))), m.Term(), FreshVar("hvdom", ArrS(ks, BoolS))))
-	st.set(ln, Store(st.get(ln, ArrS(IntS, BVS(64))), m.Term(), FreshVar("hvlen", BVS(64))))
-	for j, k := range vals {
-		s := vl.Leaves[j].S
-		st.set(k, Store(st.get(k, ArrS(IntS, ArrS(ks, s))), m.Term(), FreshVar("hvval", ArrS(ks, s))))
+	mi := mapKeys(m.T)
+	st.set(mi.dom, Store(st.get(mi.dom, mi.domSort()), m.Term(), FreshVar("hvdom", nestSort(mi.ks, BoolS))))
+	st.set(mi.ln, Store(st.get(mi.ln, ArrS(IntS, BVS(64))), m.Term(), FreshVar("hvlen", BVS(64))))
+	for j, k := range mi.vals {
+		s := mi.vl.Leaves[j].S
+		st.set(k, Store(st.get(k, mi.valSort(j)), m.Term(), FreshVar("hvval", nestSort(mi.ks, s))))
 	}
 }
 
@@ -278,6 +278,9 @@ func (ex *Exec) callContract(fr *Frame, st *State, fn *ssa.Function, fc *FuncCon
 	pre := st.clone()
 	// havoc the modifies set
 	for _, m := range fc.Modifies {
+		if m.Base != nil && !ex.canEval(env, m.Base) {
+			continue // target reachable only from the result (a fresh object)
+		}
 		ex.havocTarget(env, st, m)
 	}
 	if !fc.Pure {
@@ -397,7 +400,7 @@ func (ex *Exec) builtin(fr *Frame, st *State, b *ssa.Builtin, c *ssa.CallCommon,
 	case "copy":
 		return []Val{scalar(rtype, ex.copyOp(fr, st, args[0], args[1], pos))}
 	case "delete":
-		ex.mapDelete(st, args[0], args[1].Term())
+		ex.mapDelete(st, args[0], ex.keyVal(st, args[1], args[0].T).L)
 		return nil
 	case "close":
 		ch := args[0].Term()
